@@ -110,7 +110,7 @@ def run(ctx):
                 kind = "newtype"
             elif "parse_meta_list" in txt:
                 kind = "struct"
-            elif name.startswith("variant::UnitMatchArm") and txt.endswith("=> ⟨proc_macro2::TokenStream⟩ ,"):
+            elif name.startswith("variant::UnitMatchArm") and (txt.endswith("=> ⟨proc_macro2::TokenStream⟩ ,") or txt.endswith('=> :: darling :: export :: Err ( :: darling :: Error :: unsupported_format ( "literal" ) ) ,')):
                 kind = "other"
             if kind in arms:
                 ctx.ob("C09.G.arm-for-own-style", f.key, "%s arm" % kind, bool(pcs) and all(ctx._sat(d, arms[kind]) for d in pcs), "%s arm emitted under %s" % (kind, [sorted(d) for d in pcs]))
